@@ -296,7 +296,7 @@ type overlayTest struct {
 
 // runOverlayTests compiles the tests into /repo's package (overlay) and runs them.
 // Returns per-test verdict: "pass", "fail" (t.Errorf/t.Fatalf), "panic", or "error".
-func runOverlayTests(w *World, tests []overlayTest, dir string) (map[string]string, string) {
+func runOverlayTests(w *World, tests []overlayTest, dir string, extraFiles ...string) (map[string]string, string) {
 	os.MkdirAll(dir, 0o755)
 	var b strings.Builder
 	b.WriteString("//go:build verif\n\npackage " + w.prog.Pkg.Name() + "\n\nimport (\n\t\"fmt\"\n\t\"math\"\n\t\"testing\"\n)\n\nvar _ = fmt.Sprint\nvar _ = math.Abs\n\n")
@@ -321,10 +321,13 @@ func runOverlayTests(w *World, tests []overlayTest, dir string) (map[string]stri
 		filepath.Join(w.prog.RepoDir, "zz_verif_replay_test.go"): testFile,
 		filepath.Join(w.prog.RepoDir, "zz_spec_verif.go"):        specFile,
 	}}
+	for i, ef := range extraFiles {
+		ov["Replace"][filepath.Join(w.prog.RepoDir, fmt.Sprintf("zz_verif_extra%d_test.go", i))] = ef
+	}
 	ovb, _ := json.Marshal(ov)
 	ovFile := filepath.Join(dir, "overlay.json")
 	os.WriteFile(ovFile, ovb, 0o644)
-	cmd := exec.Command("go", "test", "-tags", "verif", "-overlay", ovFile, "-v", "-vet=off", "-count=1", "-timeout", "120s", "-run", "^TestVerif", ".")
+	cmd := exec.Command("go", "test", "-tags", "verif", "-overlay", ovFile, "-v", "-vet=off", "-count=1", "-timeout", "900s", "-run", "^TestVerif", ".")
 	cmd.Dir = w.prog.RepoDir
 	cmd.Env = append(os.Environ(), "GOFLAGS=-mod=mod", "GOPROXY=off")
 	// the default go (auto-switching to the repo's toolchain) must come first on PATH
